@@ -105,6 +105,7 @@ time_t time(time_t *t) {
 "#;
 
 static OFFSET_PTR: AtomicPtr<i64> = AtomicPtr::new(std::ptr::null_mut());
+static ORACLE_SHIFT_S: AtomicI64 = AtomicI64::new(0);
 
 fn vt_loaded() -> bool { !OFFSET_PTR.load(Ordering::SeqCst).is_null() }
 
@@ -317,7 +318,12 @@ impl Tc {
         t.timing_bgpsec_valid_weeks = self.bgp.0;
         t.timing_bgpsec_reissue_weeks_before = self.bgp.1;
     }
-    fn margin_s(&self) -> i64 { self.margin_h as i64 * 3600 }
+    /// The margin the oracle works with. `KVH_C14_ORACLE_MARGIN_SHIFT_S`
+    /// (development aid) makes the oracle disagree with the configuration
+    /// on purpose, to see it fire.
+    fn margin_s(&self) -> i64 {
+        self.margin_h as i64 * 3600 + ORACLE_SHIFT_S.load(Ordering::Relaxed)
+    }
     /// (validity, margin) in seconds for an object kind.
     fn obj(&self, kind: &str) -> Option<(i64, i64)> {
         let (v, r) = match kind {
@@ -616,12 +622,7 @@ struct Run<'a> {
     last_internal: BTreeMap<String, IntObs>,
     violations: usize,
     aborted: Option<String>,
-    /// key sets are allowed to be stale at the next snapshot (the harness
-    /// jumped over their nextUpdate itself)
-    vt_ok: bool,
 }
-
-const CHILDREN: [&str; 3] = ["cur", "stg", "old"];
 
 impl<'a> Run<'a> {
     fn log(&mut self, v: Value) {
@@ -881,6 +882,14 @@ impl<'a> Run<'a> {
 
     /// Numbers agree, windows contain the present, the tree is RP-valid.
     fn check_snapshot(&mut self, s: &Snap, at: &str, windows: bool) {
+        self.check_snapshot2(s, at, windows, windows)
+    }
+
+    /// `mft_w` / `obj_w`: whether the windows of manifests+CRLs resp. of
+    /// objects are expected to contain the present (not right after the
+    /// harness itself moved the clock past them).
+    fn check_snapshot2(&mut self, s: &Snap, at: &str, mft_w: bool, obj_w: bool) {
+        let windows = mft_w;
         let now = s.t_ms / 1000;
         let mut bad: Vec<(String, String, Value)> = vec![];
         for (key, (ca, state)) in &s.owner {
@@ -922,7 +931,7 @@ impl<'a> Run<'a> {
                     w_bad.push(format!("manifest EE {}..{}", k.ee_nb, k.ee_na));
                 }
                 for (u, o) in &k.objects {
-                    if o.kind == "cer-ca" { continue }
+                    if o.kind == "cer-ca" || !obj_w { continue }
                     self.r.count("window_checks", 1);
                     if !(o.nb <= now && now <= o.na) {
                         w_bad.push(format!("{} {}..{}", u, o.nb, o.na));
@@ -938,7 +947,18 @@ impl<'a> Run<'a> {
                 }
             }
         }
-        if windows {
+        if mft_w && obj_w {
+            for (key, (ca, state)) in &s.owner {
+                if !s.rp_keys.contains(key) && s.keys.contains_key(key) {
+                    bad.push((
+                        format!("c14:key-not-rp-valid:{state}"),
+                        format!("{ca} {state} {at}: the relying-party walk \
+                                 does not reach/accept this key's \
+                                 publication point"),
+                        s.brief(ca),
+                    ));
+                }
+            }
             for i in &s.rp_issues {
                 bad.push((
                     "c14:rp-invalid".into(), format!("{at}: {i}"), json!({})
@@ -1003,6 +1023,18 @@ impl<'a> Run<'a> {
     /// One maintenance run with its judgement. `before` must be the state
     /// the run starts from; returns the snapshot after the run.
     fn maintenance(&mut self, mode: Mode, before: Snap) -> Option<Snap> {
+        self.maintenance2(mode, before, true, None)
+    }
+
+    /// `objs_fresh`: false when the harness moved the clock past object
+    /// lifetimes and the renew task has not run yet.
+    /// `payload_ref`: the payloads to compare with when the state before
+    /// the run is not a valid baseline (objects ran out during a clock
+    /// move and this run renews them).
+    fn maintenance2(
+        &mut self, mode: Mode, before: Snap, objs_fresh: bool,
+        payload_ref: Option<&Payloads>,
+    ) -> Option<Snap> {
         let t0 = now_ms();
         let mut extra_hold = vec![RENEW_TA];
         match mode {
@@ -1053,15 +1085,32 @@ impl<'a> Run<'a> {
             }
         }
         let after = self.snapshot(None)?;
-        self.judge(mode, &before, &after, t0, t1);
-        self.check_snapshot(&after, &format!("after {} run", mode.s()),
-                            mode != Mode::Renew);
+        let payloads = if !objs_fresh { None }
+            else { Some(payload_ref.unwrap_or(&before.payloads)) };
+        let unpublished = self.judge(mode, &before, &after, t0, t1, payloads);
+        if unpublished {
+            self.r.count("healed_by_repo_sync", 1);
+            self.op(Op::SyncRepoAll);
+            self.pump(&[REPUBLISH, RENEW, RENEW_TA]);
+            let healed = self.snapshot(None)?;
+            self.check_monotone(&after, &healed, "repository sync");
+            return Some(healed)
+        }
+        self.check_snapshot2(&after, &format!("after {} run", mode.s()),
+                             true, objs_fresh);
         self.check_monotone(&before, &after, &format!("{} run", mode.s()));
         Some(after)
     }
 
-    fn judge(&mut self, mode: Mode, b: &Snap, a: &Snap, t0: i64, t1: i64) {
+    /// Returns whether a re-issue that was never published was found (the
+    /// caller then lets the CAs synchronise with the repository, which is
+    /// what a restart of the daemon would do, and goes on).
+    fn judge(
+        &mut self, mode: Mode, b: &Snap, a: &Snap, t0: i64, t1: i64,
+        payloads_before: Option<&Payloads>,
+    ) -> bool {
         let tc = self.tc;
+        let mut unpublished = false;
         let mut bad: Vec<(String, String, Value)> = vec![];
         let cell = |r: &mut Report, state: &str, due: Due, kind: &str| {
             r.nontrivial(format!("{}|{state}|{}|{kind}", tc.name, due.s()));
@@ -1139,6 +1188,7 @@ impl<'a> Run<'a> {
                             .map(|i| i.mft_hash != kb.mft_hash
                                  && i.number_json.to_string() != kb.number)
                             .unwrap_or(false);
+                        if silent { unpublished = true }
                         let sig = if silent {
                             format!("c14:reissued-but-not-published:{state}")
                         } else {
@@ -1361,16 +1411,14 @@ impl<'a> Run<'a> {
         }
 
         // --- a re-issue never changes the payloads
-        self.r.eval();
-        self.r.count("payload_comparisons", 1);
-        if b.payloads != a.payloads {
+        if let Some(pb) = payloads_before { if *pb != a.payloads {
             let diff = json!({
-                "vrps_lost": b.payloads.0.difference(&a.payloads.0).collect::<Vec<_>>(),
-                "vrps_new": a.payloads.0.difference(&b.payloads.0).collect::<Vec<_>>(),
-                "aspas_lost": b.payloads.1.difference(&a.payloads.1).collect::<Vec<_>>(),
-                "aspas_new": a.payloads.1.difference(&b.payloads.1).collect::<Vec<_>>(),
-                "router_keys_lost": b.payloads.2.difference(&a.payloads.2).collect::<Vec<_>>(),
-                "router_keys_new": a.payloads.2.difference(&b.payloads.2).collect::<Vec<_>>(),
+                "vrps_lost": pb.0.difference(&a.payloads.0).collect::<Vec<_>>(),
+                "vrps_new": a.payloads.0.difference(&pb.0).collect::<Vec<_>>(),
+                "aspas_lost": pb.1.difference(&a.payloads.1).collect::<Vec<_>>(),
+                "aspas_new": a.payloads.1.difference(&pb.1).collect::<Vec<_>>(),
+                "router_keys_lost": pb.2.difference(&a.payloads.2).collect::<Vec<_>>(),
+                "router_keys_new": a.payloads.2.difference(&pb.2).collect::<Vec<_>>(),
             });
             bad.push((
                 format!("c14:payloads-changed-across-reissue:{}", mode.s()),
@@ -1378,9 +1426,14 @@ impl<'a> Run<'a> {
                         mode.s()),
                 diff,
             ));
+        } }
+        if payloads_before.is_some() {
+            self.r.eval();
+            self.r.count("payload_comparisons", 1);
         }
         self.r.max("payload_vrps", a.payloads.0.len() as u64);
         for (s, d, x) in bad { self.violate(&s, d, x) }
+        unpublished
     }
 
     /// The trust anchor's set: `Task::RenewTestbedTa`.
@@ -1617,7 +1670,9 @@ impl<'a> Run<'a> {
                 self.entitlement_change(ca);
             }
         }
-        self.pump(&[]);
+        // maintenance only runs where it is judged: the recurring tasks
+        // wait (they come 5 / 60 minutes after their last run anyway)
+        self.pump(&[REPUBLISH, RENEW, RENEW_TA]);
     }
 
     /// Lever 1: configuration only, real time.
@@ -1698,8 +1753,7 @@ impl<'a> Run<'a> {
                 self.r.count("vt_jumps", 1);
                 let Some(b) = self.snapshot(None) else { return };
                 let mode = if cycle % 2 == 0 { Mode::Republish } else { Mode::Both };
-                let Some(a) = self.maintenance(mode, b) else { return };
-                snap = a;
+                if self.maintenance(mode, b).is_none() { return }
             }
             vt_advance_to(th + 90);
             self.log(json!({"clock_moved_to": th + 90,
@@ -1721,6 +1775,18 @@ impl<'a> Run<'a> {
                 snap = a;
             }
         }
+        // the TA's own set, and again half its lifetime later
+        if self.aborted.is_some() || !self.r.within_budget() { return }
+        let Some(a) = self.ta_run(snap) else { return };
+        snap = a;
+        if self.scn.testbed && self.scn.ta_weeks <= 4 {
+            let target = now_ms() / 1000 + self.scn.ta_weeks * WEEK / 2;
+            let Some(a) = self.jump_and_maintain(
+                snap, target, "half the TA manifest lifetime later"
+            ) else { return };
+            let Some(a) = self.ta_run(a) else { return };
+            snap = a;
+        }
         // objects: only when their thresholds are a few weeks away
         let short = [tc.roa, tc.aspa, tc.bgp].iter().all(|x| x.0 <= 4);
         if short {
@@ -1737,39 +1803,37 @@ impl<'a> Run<'a> {
                     (th + 3600, "1 h after the first object threshold"),
                 ] {
                     if target <= now_ms() / 1000 { continue }
-                    let past = Time::now();
-                    let files_before = snap.files.clone();
-                    vt_advance_to(target);
-                    self.log(json!({"clock_moved_to": target, "what": what}));
-                    self.r.count("vt_jumps", 1);
-                    // every manifest ran out meanwhile: validate the state
-                    // before the run as of the time before the jump
-                    let Some(b) = self.snapshot(Some(past)) else { return };
-                    if b.files != files_before {
-                        self.abort("repository changed by a clock move".into());
-                        return
-                    }
-                    let Some(a) = self.maintenance(Mode::Republish, b) else { return };
-                    let Some(a) = self.maintenance(Mode::Renew, a) else { return };
+                    let Some(a) = self.jump_and_maintain(snap, target, what)
+                        else { return };
                     snap = a;
                 }
             }
         }
-        // the TA's own set, half its lifetime later
-        if self.aborted.is_some() || !self.r.within_budget() { return }
-        let Some(a) = self.ta_run(snap) else { return };
-        snap = a;
-        if self.scn.testbed && self.scn.ta_weeks <= 4 {
-            let past = Time::now();
-            let target = now_ms() / 1000 + self.scn.ta_weeks * WEEK / 2;
-            vt_advance_to(target);
-            self.log(json!({"clock_moved_to": target,
-                            "what": "half the TA manifest lifetime later"}));
-            self.r.count("vt_jumps", 1);
-            let Some(b) = self.snapshot(Some(past)) else { return };
-            let Some(a) = self.ta_run(b) else { return };
-            let _ = a;
+        let _ = snap;
+    }
+
+    /// Moves the clock far ahead (every manifest runs out meanwhile, by the
+    /// harness' doing), then republish and renew as the waiting tasks of
+    /// the daemon would. The state before is validated as of the time
+    /// before the move.
+    fn jump_and_maintain(
+        &mut self, snap: Snap, target: i64, what: &str
+    ) -> Option<Snap> {
+        let past = Time::now();
+        // payloads as validated before the move (rp::walk_at judges signed
+        // objects at the present, so they are taken from the earlier walk)
+        let reference = snap.payloads.clone();
+        let files_before = snap.files;
+        vt_advance_to(target);
+        self.log(json!({"clock_moved_to": target, "what": what}));
+        self.r.count("vt_jumps", 1);
+        let b = self.snapshot(Some(past))?;
+        if b.files != files_before {
+            self.abort("repository changed by a clock move".into());
+            return None
         }
+        let a = self.maintenance2(Mode::Republish, b, false, None)?;
+        self.maintenance2(Mode::Renew, a, true, Some(&reference))
     }
 }
 
@@ -1827,10 +1891,8 @@ fn run_scenario(r: &mut Report, args: &Args, scn: Scn) {
             CaModel::new("old", 2, 65008),
         ],
         objs_kv, last_internal: BTreeMap::new(), violations: 0,
-        aborted: None, vt_ok: scn.vt,
+        aborted: None,
     };
-    let _ = CHILDREN;
-    let _ = run.vt_ok;
     run.r.distinct("configs", format!(
         "{}|vt={}|testbed={}|ta_weeks={}", tc.name, scn.vt, scn.testbed,
         scn.ta_weeks
@@ -1870,10 +1932,14 @@ fn make_scn(args: &Args, idx: u64, vt_ok: bool) -> Scn {
     let vt = vt_ok && slot % 5 >= 3;
     let tc = if vt { VT_TCS[(slot / 5) as usize % VT_TCS.len()] }
         else { (slot as usize + (slot / 5) as usize) % TCS.len() };
+    let testbed = rng.chance(2, 3);
+    // with virtual time the TA's manifest must outlive the clock moves
+    // unless the testbed renewal keeps it fresh
+    let ta_weeks = if !vt { *rng.pick(&[12i64, 4, 2]) }
+        else if testbed { *rng.pick(&[12i64, 4]) }
+        else { 12 };
     Scn {
-        idx, vt, tc, seed,
-        testbed: rng.chance(2, 3),
-        ta_weeks: *rng.pick(&[12i64, 4, 2]),
+        idx, vt, tc, seed, testbed, ta_weeks,
         rounds: if args.thorough() { 12 } else { 5 },
     }
 }
@@ -1882,6 +1948,12 @@ fn main() {
     let args = Args::parse();
     let shim_status = bootstrap_shim(&args);
     let mut r = Report::new("C14", &args);
+    if let Some(v) = std::env::var("KVH_C14_ORACLE_MARGIN_SHIFT_S").ok()
+        .and_then(|v| v.parse::<i64>().ok())
+    {
+        ORACLE_SHIFT_S.store(v, Ordering::Relaxed);
+        r.note("oracle_margin_shift_s", json!(v));
+    }
     let selftest = if vt_loaded() { vt_selftest() } else { Err(shim_status.clone()) };
     let vt_ok = selftest.is_ok();
     r.note("virtual_time_shim", json!(shim_status));
